@@ -917,6 +917,9 @@ pub fn run_c06(ctx: &Ctx) -> Report {
         rep.require("null_cells_compared", 100);
         rep.require("dates_compared", 10_000);
     }
+    // ---- backends that go on after a refused writer call (props/recover.rs): the cells that were
+    //      accepted arrive with their values (text rows)
+    rep.merge(super::recover::group(ctx, "C06", super::recover::Clause::Values, Some(false), 1500, 30_000));
     rep
 }
 
@@ -1435,5 +1438,8 @@ pub fn run_c07(ctx: &Ctx) -> Report {
         rep.require("refusals_observed", 100);
         rep.require("rows_cross_checked", 100);
     }
+    // ---- backends that go on after a refused writer call (props/recover.rs): the cells that were
+    //      accepted arrive with their values and NULL bits (binary rows)
+    rep.merge(super::recover::group(ctx, "C07", super::recover::Clause::Values, Some(true), 1500, 30_000));
     rep
 }
